@@ -143,6 +143,37 @@ Definition str_pair_oracle (w : N) (a b : list N) (impl : list bool) : bool :=
   bools_eqb impl (ops_of_cmp (lex_cmp w a b)).
 
 (* ------------------------------------------------------------------ *)
+(** * The (const Char_T * ) overloads and the hash-table items *)
+
+(* StringUtils::Count(str): the right operand is what precedes the first NUL *)
+Fixpoint cstr_cut (b : list N) : list N :=
+  match b with
+  | [] => []
+  | x :: r => if x =? 0 then [] else x :: cstr_cut r
+  end.
+
+(* String / StringView  operator OP (const Char_T *str):  the same helper with
+   right_length = Count(str); operator== is IsEqual(str, Count(str)) = length test + IsEqual *)
+Definition cstr_ops (w : N) (a b : list N) : option (list bool) := str_ops w a (cstr_cut b).
+Definition cstr_pair_oracle (w : N) (a b : list N) (impl : list bool) : bool :=
+  str_pair_oracle w a (cstr_cut b) impl.
+
+(* HAItem_T / HLItem_T  operator < > <= >= ==  : (Key OP item.Key), nothing else is looked at *)
+Definition item_ops (w : N) (ka kb : list N) : option (list bool) :=
+  match str_eq ka kb with
+  | Some e => Some [str_lt w ka kb; str_gt w ka kb; str_le w ka kb; str_ge w ka kb; e]
+  | None => None
+  end.
+Definition item_ops_of_cmp (c : comparison) : list bool :=
+  match c with
+  | Lt => [true; false; true; false; false]
+  | Eq => [false; false; true; true; true]
+  | Gt => [false; true; false; true; false]
+  end.
+Definition item_pair_oracle (w : N) (ka kb : list N) (impl : list bool) : bool :=
+  bools_eqb impl (item_ops_of_cmp (lex_cmp w ka kb)).
+
+(* ------------------------------------------------------------------ *)
 (** * Doubles (as 64-bit patterns) *)
 
 Definition dbl_isnan (b : N) : bool :=
